@@ -172,6 +172,21 @@ def collect(ctx, funcs, writer: bool):
                 if d in ("_get_field", "getattr") and len(n.args) >= 2 and isinstance(n.args[1], ast.Constant):
                     for m in msgs_of(f, n.args[0]):
                         add(m, n.args[1].value, f, n)
+                if d in ("_get_field", "getattr") and len(n.args) >= 2 and isinstance(n.args[1], ast.Name) and n.args[1].id not in oneof_vars:
+                    # the field's name comes out of a module-level table consulted in this function (`make, field = TABLE[kind]`): every
+                    # string in the table's values that names a field of the message is accessed on some path
+                    for t_ in own_nodes(f.node):
+                        tab = None
+                        if isinstance(t_, ast.Call) and isinstance(t_.func, ast.Attribute) and t_.func.attr == "get" and isinstance(t_.func.value, ast.Name):
+                            tab = t_.func.value.id
+                        elif isinstance(t_, ast.Subscript) and isinstance(t_.value, ast.Name) and isinstance(t_.ctx, ast.Load):
+                            tab = t_.value.id
+                        dct = f.module.assigns.get(tab) if tab else None
+                        if isinstance(dct, ast.Dict):
+                            for m in msgs_of(f, n.args[0]):
+                                for c_ in (x for v_ in dct.values for x in ast.walk(v_)):
+                                    if isinstance(c_, ast.Constant) and isinstance(c_.value, str) and c_.value in schema.messages[m].fields:
+                                        add(m, c_.value, f, n)
                 if isinstance(fn, ast.Attribute) and fn.attr == "add" and n.keywords:
                     for a in ty.type_of(f, fn.value):
                         if a[0] == "protorep" and a[1] != "?":
@@ -267,6 +282,8 @@ def _attr_type_chain(f: FuncInfo):
             for mem in _test_members(n.test):
                 only_raise = all(isinstance(s, ast.Raise) for s in n.body)
                 out[mem] = "raises" if only_raise else "handled"
+    for mem in _table_dispatch(f):
+        out.setdefault(mem, "handled")
     return out
 
 
@@ -285,8 +302,32 @@ def _test_members(test) -> list[str]:
     return []
 
 
+def _table_dispatch(f: FuncInfo, fields: set | None = None) -> dict:
+    """{AttributeType member: set of payload field names} for a table-driven dispatch: a module-level dict keyed by AttributeType
+    members that the function consults with `.get(<type>)` / `[<type>]` / `in`; the payload field of an entry is the string constant
+    in its value that names an AttributeProto field (read with getattr(<proto>, <field>))."""
+    out = {}
+    for n in own_nodes(f.node):
+        tab = None
+        if isinstance(n, ast.Call) and isinstance(n.func, ast.Attribute) and n.func.attr == "get" and isinstance(n.func.value, ast.Name):
+            tab = n.func.value.id
+        elif isinstance(n, ast.Subscript) and isinstance(n.value, ast.Name) and isinstance(n.ctx, ast.Load):
+            tab = n.value.id
+        d = f.module.assigns.get(tab) if tab else None
+        if not isinstance(d, ast.Dict):
+            continue
+        for k_, v_ in zip(d.keys, d.values):
+            mems = _attr_type_members(k_) if k_ is not None else []
+            for mem in mems:
+                got = {c.value for c in ast.walk(v_) if isinstance(c, ast.Constant) and isinstance(c.value, str) and (fields is None or c.value in fields)}
+                out.setdefault(mem, set()).update(got)
+    return out
+
+
 def _attr_type_members(e) -> list[str]:
     """Members of AttributeType an if-test compares with: `== AttributeType.X`, or `in (AttributeType.X, AttributeType.Y)`."""
+    if isinstance(e, ast.Call) and dotted_of(e.func) in ("frozenset", "set", "tuple") and len(e.args) == 1:
+        e = e.args[0]
     els = e.elts if isinstance(e, (ast.Tuple, ast.Set, ast.List)) else [e]
     out = []
     for x in els:
@@ -310,6 +351,8 @@ def _branch_fields(f: FuncInfo, proto_param: str, fields: set) -> dict:
                             got.add(x.attr)
                 for mem in mems:
                     out[mem] = set(got) if len(mems) == 1 else out.get(mem, set()) | got
+    for mem, got in _table_dispatch(f, fields).items():
+        out.setdefault(mem, set()).update(got)
     return out
 
 
